@@ -146,6 +146,21 @@ class MG:
     def wname(s, kind, lv, leaf=None, extra=""):
         return "%s_%s_%s%s%s" % (kind, s.M, lv.name if hasattr(lv, "name") else pn(lv), ("_" + leaf.name) if leaf else "", extra)
 
+    def cpp_getset_bytag(s):
+        """field-level scalar accessors through sbepp::get_by_tag / set_by_tag (same wrapper names as cpp_getset)"""
+        o = []
+        for lv in s.levels:
+            e = s.nav(lv.path)
+            mtag = "%s::schema::messages::%s" % (s.ns, "::".join((s.M,) + lv.path))
+            for lf in lv.leaves:
+                if len(lf.chain) != 1 or lf.kind == "array": continue
+                tag = "%s::%s" % (mtag, lf.chain[0])
+                o.append("W uint64_t %s(char* p, size_t n, IDX){ %s return to_bits(sbepp::get_by_tag<%s>(%s)); }" % (s.wname("get", lv, lf), s.view(), tag, e))
+                if not lf.const:
+                    o.append("W void %s(char* p, size_t n, IDX, uint64_t v){ %s auto o = %s; sbepp::set_by_tag<%s>(o, from_bits<decltype(o.%s())>(v)); }" % (
+                        s.wname("set", lv, lf), s.view(), e, tag, lf.chain[0]))
+        return "\n".join(o) + "\n"
+
     def cpp_getset(s, setters=True):
         o = []
         for lv in s.levels:
@@ -265,3 +280,107 @@ class MG:
                 t += dt.typ.size + D
             return t
         return s.HDR + s.msg.block_length + E + lvl(s.msg)
+
+
+# ====================================================================== visiting (C19)
+VISIT_CPP = r'''
+struct ev { uint32_t kind, tag; uint64_t off, val; };
+struct vlog { ev* e; uint32_t n, cap, stop_at; const char* base; };
+template<class Tag> struct tag_id { static constexpr uint32_t value = 0; };
+struct rec {
+  vlog* l;
+  bool push(uint32_t kind, uint32_t tag, uint64_t off, uint64_t val){ if(l->n < l->cap){ l->e[l->n].kind = kind; l->e[l->n].tag = tag; l->e[l->n].off = off; l->e[l->n].val = val; } l->n++; return l->n == l->stop_at; }
+  bool stopped() const { return l->stop_at && l->n >= l->stop_at; }
+  template<class T> uint64_t off(T v) const { return (uint64_t)((const char*)sbepp::addressof(v) - l->base); }
+  // composite view
+  template<class T, class Tag> auto leaf(uint32_t ks, uint32_t kv, T f, Tag, rank<2>) -> typename std::enable_if<sbepp::is_composite<T>::value, bool>::type {
+    if(push(8, tag_id<Tag>::value, off(f), ks)) return true; return sbepp::visit_children(f, *this).stopped(); }
+  // array view
+  template<class T, class Tag> auto leaf(uint32_t ks, uint32_t kv, T f, Tag, rank<1>) -> decltype(sbepp::addressof(f), bool()) { return push(kv, tag_id<Tag>::value, off(f), f.size()); }
+  // scalar (required/optional/enum/set)
+  template<class T, class Tag> bool leaf(uint32_t ks, uint32_t kv, T f, Tag, rank<0>) { return push(ks, tag_id<Tag>::value, 0, to_bits(f)); }
+  template<class T, class Tag> bool on_field(T f, Tag t){ return leaf(1, 9, f, t, rank<2>{}); }
+  template<class T, class Tag> bool on_type(T f, Tag t){ return leaf(5, 10, f, t, rank<2>{}); }
+  template<class T, class Tag> bool on_enum(T f, Tag){ return push(6, tag_id<Tag>::value, 0, to_bits(f)); }
+  template<class T, class Tag> bool on_set(T f, Tag){ return push(7, tag_id<Tag>::value, 0, to_bits(f)); }
+  template<class T, class Tag> bool on_composite(T f, Tag t){ return leaf(5, 10, f, t, rank<2>{}); }
+  template<class T, class C, class Tag> bool on_group(T g, C& c, Tag){ if(push(2, tag_id<Tag>::value, off(g), g.size())) return true; return sbepp::visit_children(g, c, *this).stopped(); }
+  template<class T, class C> bool on_entry(T e, C& c){ if(push(3, 0, off(e), 0)) return true; return sbepp::visit_children(e, c, *this).stopped(); }
+  template<class T, class Tag> bool on_data(T d, Tag){ return push(4, tag_id<Tag>::value, off(d), d.size()); }
+  template<class T, class C, class Tag> void on_message(T m, C& c, Tag){ if(push(11, tag_id<Tag>::value, off(m), 0)) return; sbepp::visit_children(m, c, *this); }
+};
+'''
+
+
+def _comp_events(comp, tagpath, base_c, tags, be, ns):
+    """C statements (list) appending the expected child events of a composite at C offset expression base_c"""
+    L = []
+    for m in comp.members:
+        if m.is_constant: continue
+        t = m.typ
+        tag = tags.setdefault("%s::schema::types::%s::%s" % (ns, "::".join(tagpath), m.name), len(tags) + 1)
+        off = "(%s + %d)" % (base_c, m.offset)
+        if t.kind == "composite":
+            L.append("EXP(8, %d, %s, 5);" % (tag, off))
+            sub = (t.name,) if m.is_ref else tagpath + (m.name,)
+            L += _comp_events(t, sub, off, tags, be, ns)
+        elif t.kind == "enum": L.append("EXP(6, %d, 0, ref_rd(buf + %s, %d, %d));" % (tag, off, SZ[t.prim], be))
+        elif t.kind == "set": L.append("EXP(7, %d, 0, ref_rd(buf + %s, %d, %d));" % (tag, off, SZ[t.prim], be))
+        elif t.is_array: L.append("EXP(10, %d, %s, %d);" % (tag, off, t.length))
+        else: L.append("EXP(5, %d, 0, ref_rd(buf + %s, %d, %d));" % (tag, off, SZ[t.prim], be))
+    return L
+
+
+def visit_model(g):
+    """returns (tags dict: c++ tag type -> id, C code lines building exp[]/ne from r, event capacity bound)"""
+    tags = {}
+    ns, Mn, be = g.ns, g.M, g.be
+    def level(node, path, d, base_c):
+        L = []
+        mtag = "%s::schema::messages::%s" % (ns, "::".join((Mn,) + path))
+        for f in node.fields:
+            if f.is_constant: continue
+            tag = tags.setdefault("%s::%s" % (mtag, f.name), len(tags) + 1)
+            t = f.typ; off = "(%s + %d)" % (base_c, f.offset)
+            if t.kind == "composite":
+                L.append("EXP(8, %d, %s, 1);" % (tag, off))
+                L += _comp_events(t, (t.name,), off, tags, be, ns)
+            elif t.kind in ("enum", "set") or not t.is_array:
+                L.append("EXP(1, %d, 0, ref_rd(buf + %s, %d, %d));" % (tag, off, SZ[t.prim], be))
+            else:
+                L.append("EXP(9, %d, %s, %d);" % (tag, off, t.length))
+        ix = idx(d)
+        for gr in node.groups:
+            n = pn(path + (gr.name,))
+            tag = tags.setdefault("%s::%s" % (mtag, gr.name), len(tags) + 1)
+            L.append("EXP(2, %d, r.%s_hdr%s, r.%s_n%s);" % (tag, n, ix, n, ix))
+            L.append("for (unsigned i%d = 0; i%d < %d; i%d++) if (i%d < r.%s_n%s) {" % (d, d, g.G, d, d, n, ix))
+            L.append("  EXP(3, 0, r.%s_ent%s[i%d], 0);" % (n, ix, d))
+            L += ["  " + x for x in level(gr, path + (gr.name,), d + 1, "r.%s_ent%s[i%d]" % (n, ix, d))]
+            L.append("}")
+        for dt in node.data:
+            n = pn(path + (dt.name,))
+            tag = tags.setdefault("%s::%s" % (mtag, dt.name), len(tags) + 1)
+            L.append("EXP(4, %d, r.%s_off%s, r.%s_len%s);" % (tag, n, ix, n, ix))
+        return L
+    lines = level(g.msg, (), 0, "%d" % g.HDR)
+    def cap(node):
+        c = 0
+        for f in node.fields:
+            if f.is_constant: continue
+            c += 1 + (len(M.leaves(f.typ.members)) + len(M.composites(f.typ.members)) if f.typ.kind == "composite" else 0)
+        for gr in node.groups: c += 1 + g.G * (1 + cap(gr))
+        c += len(node.data)
+        return c
+    return tags, lines, cap(g.msg) + 2
+
+
+def cpp_visit(g, tags):
+    o = [VISIT_CPP]
+    for t, k in tags.items():
+        o.append("template<> struct tag_id<%s> { static constexpr uint32_t value = %d; };" % (t, k))
+    o.append("template<> struct tag_id<%s::schema::messages::%s> { static constexpr uint32_t value = 9999; };" % (g.ns, g.M))
+    o.append("W int64_t visitc_%s(char* p, size_t n, vlog* l){ %s l->base = p; auto c = sbepp::init_cursor(m); rec v{l}; sbepp::visit_children(m, c, v); return c.pointer() - p; }" % (g.M, g.view()))
+    o.append("W int64_t visit_%s(char* p, size_t n, vlog* l){ %s l->base = p; auto c = sbepp::init_cursor(m); rec v{l}; sbepp::visit(m, c, v); return c.pointer() - p; }" % (g.M, g.view()))
+    o.append("W int64_t visitcc_%s(const char* p, size_t n, vlog* l){ %s l->base = p; rec v{l}; sbepp::visit_children(m, v); return 0; }" % (g.M, g.view(const=True)))
+    return "\n".join(o) + "\n"
